@@ -123,6 +123,9 @@ def runSection (r : Report) (sec : Section) : Report := Id.run do
         let mine := observe H s probes
         if mine ≠ implState then r := r.mismatch sec.idx l.idx mine implState
         -- monitor, on the implementation's own answers
+        if l.obs.head? = some "PANIC" then
+          r := r.violation sec.idx l.idx s!"panic: [{joinSp l.op}] panics: {joinSp l.obs}"
+        else
         match (kv? l.obs "g").bind parseOutcomes, (kv? l.obs "f").bind parseOutcomes with
         | some g, some f =>
           if g.length ≠ probes.length ∨ f.length ≠ probes.length then
@@ -144,7 +147,7 @@ def runSection (r : Report) (sec : Section) : Report := Id.run do
                 if !disruptOk op.repr wasMember isMember o o' then
                   r := r.violation sec.idx l.idx s!"disruption: Get {showOutcome (.node k)} moved {showOutcome o} -> {showOutcome o'} by [{opS}]"
             else
-              r := r.addCover "disruption-skipped-collision"
+              r := r.addCover s!"disruption-skipped-collision-{hash}"
             if g.any (fun o => match o with | .node _ => true | _ => false) then pure () else r := r.addCover "all-none"
             prev := g
         | _, _ => r := r.mismatch sec.idx l.idx "bad-obs" (joinSp l.obs)
